@@ -44,6 +44,22 @@ func c17(c *q.Ctx) {
 		c.Guard(us, q.Cond{Canon: "(p1 < 0)", Sense: true}, q.ToCall("Batch.Put"), q.Opt{})
 		c.StoreIs(us, "UtxoMeta.IrreversibleSlideWindow", "p1", 2, "")
 	}
+	// restart: both copies of the meta (published and staged) start from the persisted height and window
+	if nm := c.Fn(mt + "NewMeta"); nm != nil {
+		c.StoreIs(nm, "UtxoMeta.IrreversibleBlockHeight", "meta.(*Meta).LoadIrreversibleBlockHeight(*)#0", 1, "the height survives a restart")
+		c.StoreIs(nm, "UtxoMeta.IrreversibleSlideWindow", "meta.(*Meta).LoadIrreversibleSlideWindow(*)#0", 1, "the window survives a restart")
+		c.Gate(nm, "Meta.LoadIrreversibleBlockHeight", q.ToSuccess(), q.Opt{})
+		c.Gate(nm, "Meta.LoadIrreversibleSlideWindow", q.ToSuccess(), q.Opt{})
+		tmp := q.Target{Name: "the clone that becomes MetaTmp", Instr: func(i ssa.Instruction) bool {
+			ci, ok := i.(ssa.CallInstruction)
+			return ok && q.Callee(ci.Common()).Match("proto::Clone")
+		}}
+		for _, f := range []string{"IrreversibleBlockHeight", "IrreversibleSlideWindow"} {
+			c.Before(nm, q.ToFieldStore("UtxoMeta."+f), tmp, "the staged copy (MetaTmp) is cloned after "+f+" was loaded: the first undone block publishes MetaTmp")
+			c.NeverAfter(nm, tmp, q.ToFieldStore("UtxoMeta."+f), "nothing is loaded into Meta after MetaTmp was cloned from it")
+		}
+		c.StoreIs(nm, "Meta.MetaTmp", "local<UtxoMeta> OR proto.Clone(local<UtxoMeta>)", 2, "MetaTmp ends up a copy of the loaded Meta (the literal's empty message is replaced)")
+	}
 	cur := "meta.(*Meta).GetIrreversibleBlockHeight(p0.meta)"
 	win := "meta.(*Meta).GetIrreversibleSlideWindow(p0.meta)"
 	for _, op := range []struct{ fn, height string }{
